@@ -194,7 +194,10 @@ class SensitiveWordAnonymizer(object):
     @classmethod
     def _generate_sensitive_word_regex(cls, sensitive_words):
         """Compile and return regex for the specified list of sensitive words."""
-        return re.compile("({})".format("|".join(sensitive_words)), re.IGNORECASE)
+        return re.compile(
+            "({})".format("|".join(re.escape(w) for w in sensitive_words)),
+            re.IGNORECASE,
+        )
 
     def _get_or_generate_sensitive_word_replacement(self, sensitive_word):
         """Return the replacement string for the given sensitive word.
